@@ -1,5 +1,6 @@
 """C01 — compiled SQL returns exactly the multiset the program denotes."""
 from . import tvrun
+from .. import corpus
 
 FUNCTIONS = [
     'parser_py/parse.py: ParseFile (whole parser, concretely per catalogue program)',
@@ -13,12 +14,14 @@ ASSUMPTIONS = [
     'database: <=K rows per extensional table (K=2, lowered to 1 when the slot budget is exceeded), integer cells in [-2^20,2^20], no NULLs',
     'Range(n) unrolled to n<=3 (assumed in the query)',
     'trusted: lv/sqlsem.py semantics of the SQL subset (validated against real SQLite on seeded concrete databases each run), lv/refsem.py reading of docs/learn/logica.md, z3',
+    'encoder self-test on the repository\'s own inputs: the 29 integration_tests/sqlite_*.l programs are compiled and run on real SQLite (rendering compared with the golden .txt); for those whose SQL falls inside the modelled subset the model\'s evaluation must equal real SQLite\'s rows',
     'outside the claim: strings beyond equality-compared constants, / and %, floats, programs outside the family, more than K rows',
 ]
 
 
 def run():
-  return tvrun.run_tv('C01', {'core': (80, 800, None)}, FUNCTIONS, ASSUMPTIONS, 'DESIGN.md §3 C01')
+  return tvrun.run_tv('C01', {'core': (80, 800, None)}, FUNCTIONS, ASSUMPTIONS, 'DESIGN.md §3 C01',
+                      extra_fn=corpus.run)
 
 
 def replay(path):
